@@ -1557,7 +1557,7 @@ func (mgr *Manager) convertStreamJob(allConverters []*converters.CachedConverter
 				if tag.features.MainFeatures&query.FeatureFilterData == 0 && tag.features.SubQueryFeatures&query.FeatureFilterData == 0 {
 					continue
 				}
-				tag.Uncertain.Or(*allStreamIDs[i])
+				tag.Uncertain = tag.Uncertain.OrCopy(*allStreamIDs[i])
 			}
 			mgr.updatedStreamsDuringTaggingJob.Or(*allStreamIDs[i])
 			mgr.event(Event{
